@@ -9,3 +9,4 @@ INVARIANT OptimalGeGreedy
 INVARIANT OptimalIsFirst
 INVARIANT GreedyTakesMax
 INVARIANT OptimalSeqAgrees
+INVARIANT MaxSeqAgrees
